@@ -126,6 +126,14 @@ Linear_Expression_Impl<Row>
                  Coefficient_traits::const_reference c2) {
   PPL_ASSERT(c1 != 0);
   PPL_ASSERT(c2 != 0);
+  if (static_cast<const void*>(&y) == static_cast<const void*>(this)) {
+    // `y' is `*this': the row-level routines require two distinct rows
+    // (they rescale or erase elements of `*this' while still reading `y').
+    PPL_DIRTY_TEMP_COEFFICIENT(c);
+    c = c1 + c2;
+    *this *= c;
+    return;
+  }
   if (space_dimension() < y.space_dimension()) {
     set_space_dimension(y.space_dimension());
   }
@@ -140,6 +148,13 @@ Linear_Expression_Impl<Row>
 ::linear_combine_lax(const Linear_Expression_Impl<Row2>& y,
                      Coefficient_traits::const_reference c1,
                      Coefficient_traits::const_reference c2) {
+  if (static_cast<const void*>(&y) == static_cast<const void*>(this)) {
+    // `y' is `*this': see linear_combine().
+    PPL_DIRTY_TEMP_COEFFICIENT(c);
+    c = c1 + c2;
+    *this *= c;
+    return;
+  }
   if (space_dimension() < y.space_dimension()) {
     set_space_dimension(y.space_dimension());
   }
